@@ -654,3 +654,264 @@ Proof.
   assert (E : dp_bytes_eqb dp_wellknown dp_wellknown = true) by (apply dp_bytes_eqb_eq; reflexivity).
   rewrite E. reflexivity.
 Qed.
+
+(* ---- error replies built by handle_request(): the request's token and id, the given code,
+        no options (except Hop-Limit on a 5.08 sent at once), subject to the same suppression
+        rules ---- *)
+Theorem error_reply_is : forall cfg mc req rf c,
+  nr_std_code c ->
+  dp_fail cfg mc req rf c =
+  match nr_fate_spec (dp_noresp_of req) mc (c_mpr cfg) rf (dp_resp_type req) c false with
+  | NrDropped => []
+  | NrEmptyAck => [EvTx false (dp_empty NR_ACK (m_mid req))]
+  | NrSendAsIs =>
+      [EvTx true (mkMsg (dp_resp_type req) c (m_mid req) (m_token req)
+                        (if (c =? 168) && nr_immediate mc (c_mpr cfg) rf then [(DP_HOP_LIMIT, [255])] else [])
+                        [])]
+  end.
+Proof.
+  intros cfg mc req rf c Hc. unfold dp_fail, dp_error. rewrite dp_error_opts_empty.
+  rewrite finish_is_spec; cbn [m_type m_code m_mid m_token m_opts m_payload].
+  - unfold dp_has_data. cbn [m_payload]. unfold dp_sent_opts. cbn [dp_remove1 andb app].
+    destruct (nr_fate_spec _ _ _ _ _ _ _); try reflexivity.
+    destruct ((2 <? nr_class c) && negb (c =? 141)); destruct ((c =? 168) && _); reflexivity.
+  - exact Hc.
+  - unfold dp_resp_type. destruct (m_type req =? NR_CON); auto.
+Qed.
+
+(* ---- the theorem on datagrams: whatever coap_pdu_parse() accepts ---- *)
+From LibcoapV Require Import Wire.PduProofs Wire.ParseSound.
+
+Theorem serve_datagram_allowed : forall cfg h mc bs req,
+  wfb bs -> parse UDP bs = Some req -> dp_in_scope cfg h req ->
+  dp_allowed cfg h mc req (dp_serve cfg h mc req).
+Proof.
+  intros cfg h mc bs req Hb Hp Hs.
+  destruct (parse_sound_udp bs req Hb Hp) as [Hwf _].
+  apply serve_allowed; [|apply (wf_type _ Hwf)|exact Hs].
+  unfold dp_req_wf. destruct (wf_opts _ Hwf) as [Ho _].
+  eapply Forall_impl; [|exact Ho]. intros o [H _]. lia.
+Qed.
+
+(* ---- non-vacuity: concrete servers and requests ---- *)
+Definition ex_handler (_ : dp_hreq) : dp_hresp := mkHresp 69 [(12, [0])] [104; 105].
+Definition ex_cfg : dp_cfg :=
+  mkCfg true [] [mkRes [97] 1 8; mkRes [98] 3 0] (Some (4, 0)) None (fun _ => [60; 47; 97; 62]).
+Definition ex_get (ty : Z) (path : bytes) (extra : list opt) : msg :=
+  mkMsg ty 1 4660 [170; 187] ((11, path) :: extra) [].
+
+(* CON GET /a : the GET handler of /a runs once, piggybacked 2.05 with what it set *)
+Example ex_handler_runs :
+  dp_serve ex_cfg ex_handler false (ex_get 0 [97] []) =
+  [EvH (mkHreq (RRes [97]) 1 (ex_get 0 [97] []) []);
+   EvTx false (mkMsg 2 69 4660 [170; 187] [(12, [0])] [104; 105])] /\
+  sp_blocked ex_cfg false (ex_get 0 [97] []) = false /\
+  dp_in_scope ex_cfg ex_handler (ex_get 0 [97] []) /\
+  dp_allowed_outs ex_cfg ex_handler false (ex_get 0 [97] []) =
+  [dp_serve ex_cfg ex_handler false (ex_get 0 [97] [])].
+Proof.
+  split; [vm_compute; reflexivity|]. split; [vm_compute; reflexivity|].
+  split; [split; [discriminate|intros i; vm_compute; discriminate]|].
+  vm_compute. reflexivity.
+Qed.
+
+(* the rules of the statement on concrete requests *)
+Example ex_rules :
+  (* unknown critical option 13: 4.02 echoing it (CON), Reset (NON), nothing (NON, multicast) *)
+  dp_serve ex_cfg ex_handler false (ex_get 0 [97] [(13, [1])]) =
+    [EvTx true (mkMsg 2 130 4660 [170; 187] [(13, [1])] [])] /\
+  dp_serve ex_cfg ex_handler false (ex_get 1 [97] [(13, [1])]) = [EvTx false (dp_empty 3 4660)] /\
+  dp_serve ex_cfg ex_handler true (ex_get 1 [97] [(13, [1])]) = [] /\
+  (* illegal repeat of Accept *)
+  dp_serve ex_cfg ex_handler false (ex_get 0 [97] [(17, []); (17, [])]) =
+    [EvTx true (mkMsg 2 130 4660 [170; 187] [(17, [])] [])] /\
+  (* not found: 4.04; the unknown-resource handler takes PUT (mask 4 = method 3) *)
+  dp_serve ex_cfg ex_handler false (ex_get 0 [122] []) =
+    [EvTx true (mkMsg 2 132 4660 [170; 187] [] [])] /\
+  dp_calls (dp_serve ex_cfg ex_handler false (mkMsg 0 3 1 [] [(11, [122])] [1])) =
+    [mkHreq RUnknown 3 (mkMsg 0 3 1 [] [(11, [122])] [1]) []] /\
+  (* DELETE on nothing: 2.02 *)
+  dp_serve ex_cfg ex_handler false (mkMsg 0 4 1 [] [(11, [122])] []) =
+    [EvTx true (mkMsg 2 66 1 [] [] [])] /\
+  (* method not allowed *)
+  dp_serve ex_cfg ex_handler false (mkMsg 0 2 1 [] [(11, [97])] []) =
+    [EvTx true (mkMsg 2 133 1 [] [] [])] /\
+  (* If-None-Match on an existing resource *)
+  dp_serve ex_cfg ex_handler false (mkMsg 0 2 1 [] [(5, []); (11, [98])] []) =
+    [EvTx true (mkMsg 2 140 1 [] [] [])] /\
+  (* FETCH without Content-Format (a FETCH handler exists on /f) *)
+  dp_serve (mkCfg false [] [mkRes [102] 16 0] None None (fun _ => [])) ex_handler false
+           (mkMsg 0 5 1 [] [(11, [102])] []) = [EvTx true (mkMsg 2 143 1 [] [] [])] /\
+  (* proxy option without proxy support *)
+  dp_serve ex_cfg ex_handler false (mkMsg 0 1 1 [] [(3, [104]); (11, [97]); (39, [99])] []) =
+    [EvTx true (mkMsg 2 165 1 [] [] [])] /\
+  (* Hop-Limit 1 / 0 *)
+  dp_serve ex_cfg ex_handler false (mkMsg 0 1 1 [] [(11, [97]); (16, [1])] []) =
+    [EvTx true (mkMsg 2 168 1 [] [(16, [255])] [])] /\
+  dp_serve ex_cfg ex_handler false (mkMsg 0 1 1 [] [(11, [97]); (16, [0])] []) =
+    [EvTx true (mkMsg 2 128 1 [] [] [])] /\
+  (* invalid code class: Reset (CON), nothing (NON) *)
+  dp_serve ex_cfg ex_handler false (mkMsg 0 33 7 [] [] []) = [EvTx false (dp_empty 3 7)] /\
+  dp_serve ex_cfg ex_handler false (mkMsg 1 200 7 [] [] []) = [] /\
+  (* No-Response 2 suppresses the 2.05: Empty ACK for CON, nothing for NON *)
+  dp_txs (dp_serve ex_cfg ex_handler false (ex_get 0 [97] [(258, [2])])) = [dp_empty 2 4660] /\
+  dp_txs (dp_serve ex_cfg ex_handler false (ex_get 1 [97] [(258, [2])])) = [] /\
+  (* multicast: /a has multicast support, /b has not (4.05, suppressed) *)
+  dp_txs (dp_serve ex_cfg ex_handler true (ex_get 1 [97] [])) =
+    [mkMsg 1 69 4660 [170; 187] [(12, [0])] [104; 105]] /\
+  dp_serve ex_cfg ex_handler true (ex_get 1 [98] []) = [].
+Proof. vm_compute. repeat split. Qed.
+
+(* ---- corollaries in the form used by Properties_C10.v ---- *)
+Theorem single_error_reply : forall cfg h mc req,
+  0 <= m_type req <= 3 -> conn req ->
+  dp_bad_class (m_code req) = false -> dp_is_request (m_code req) = true ->
+  forall e, e <> E402 -> sp_applies cfg mc req e = true ->
+  (forall e', e' <> e -> sp_applies cfg mc req e' = false) ->
+  sp_oscore_drop cfg req = false -> sp_long_token req = false ->
+  mc && (m_type req =? NR_CON) = false ->
+  forall out, dp_allowed cfg h mc req out ->
+  out = dp_fail cfg mc req (sp_rflags cfg req e) (dp_err_code e).
+Proof.
+  intros cfg h mc req Hty Hc Hb Hq e Hne He Ho Hos Hlt Hmc out Ha.
+  destruct (single_error_decides cfg h mc req Hty Hc Hb Hq e He Ho Hos Hlt Hmc out Ha) as [H | [H _]];
+    [|contradiction].
+  destruct e; try contradiction; cbn [sp_emit] in H; destruct H as [<- | []]; reflexivity.
+Qed.
+
+(* an unknown critical or illegally repeated option (and nothing else wrong):
+   CON -> a 4.02 (built by coap_dispatch with the offending options echoed, or by
+   handle_request); NON -> Reset or silence (or a NON 4.02) *)
+Theorem bad_option_reply : forall cfg h mc req,
+  0 <= m_type req <= 3 -> conn req ->
+  dp_bad_class (m_code req) = false -> dp_is_request (m_code req) = true ->
+  sp_applies cfg mc req E402 = true ->
+  (forall e', e' <> E402 -> sp_applies cfg mc req e' = false) ->
+  sp_oscore_drop cfg req = false -> sp_long_token req = false ->
+  mc && (m_type req =? NR_CON) = false ->
+  forall out, dp_allowed cfg h mc req out ->
+  (m_type req = NR_CON /\ out = [sp_err402_direct cfg req]) \/
+  (exists rf, out = dp_fail cfg mc req rf 130) \/
+  (m_type req = NR_NON /\ sp_bad_options cfg req = true /\ In out (sp_reject mc req)).
+Proof.
+  intros cfg h mc req Hty Hc Hb Hq He Ho Hos Hlt Hmc out Ha.
+  destruct (single_error_decides cfg h mc req Hty Hc Hb Hq E402 He Ho Hos Hlt Hmc out Ha)
+    as [H | [_ [H1 [H2 H3]]]]; [|right; right; auto].
+  cbn [sp_emit] in H. apply in_app_or in H as [H | H].
+  - destruct (m_type req =? NR_CON) eqn:E; [|contradiction]. destruct H as [<- | []].
+    left. split; [unfold NR_CON in *; lia|reflexivity].
+  - right. left. apply in_app_or in H as [H | H].
+    + destruct H as [<- | []]. eexists. reflexivity.
+    + destruct (c_prx cfg) as [[[? ?] ?]|]; [|contradiction]. destruct H as [<- | []].
+      eexists. reflexivity.
+Qed.
+
+(* invalid code class: Reset or nothing; never a Reset on multicast; ACK / RST typed messages
+   are never answered *)
+Theorem bad_class_rejected : forall cfg h mc req out,
+  conn req -> dp_bad_class (m_code req) = true -> dp_allowed cfg h mc req out ->
+  out = [] \/ (mc = false /\ out = [EvTx false (dp_empty NR_RST (m_mid req))]).
+Proof.
+  intros cfg h mc req out Hc Hb. unfold dp_allowed, dp_allowed_outs.
+  assert (E : (m_type req =? NR_CON) || (m_type req =? NR_NON) = true).
+  { unfold conn, NR_CON, NR_NON in *. lia. }
+  rewrite E, Hb. cbn [negb]. unfold sp_reject. destruct mc; cbn [In]; intros H.
+  - destruct H as [<- | []]. left. reflexivity.
+  - destruct H as [<- | [<- | []]]; [right; auto|left; reflexivity].
+Qed.
+
+Theorem not_conn_silent : forall cfg h mc req out,
+  m_type req = NR_ACK \/ m_type req = NR_RST -> dp_allowed cfg h mc req out -> out = [].
+Proof.
+  intros cfg h mc req out Ht. unfold dp_allowed, dp_allowed_outs.
+  assert (E : (m_type req =? NR_CON) || (m_type req =? NR_NON) = false).
+  { unfold NR_CON, NR_NON, NR_ACK, NR_RST in *. lia. }
+  rewrite E. cbn [negb In]. intros [<- | []]. reflexivity.
+Qed.
+
+(* never a Reset in reply to a multicast message, whatever it contains *)
+Theorem no_reset_on_multicast : forall cfg h req out m,
+  0 <= m_type req <= 3 ->
+  dp_allowed cfg h true req out -> In m (dp_txs out) -> m_type m <> NR_RST.
+Proof.
+  intros cfg h req out m Hty Ha Hin Hrst.
+  (* every element of the enumeration, for mc = true *)
+  unfold dp_allowed, dp_allowed_outs in Ha.
+  destruct ((m_type req =? NR_CON) || (m_type req =? NR_NON)) eqn:Ec; cbn [negb] in Ha.
+  2: { destruct Ha as [<- | []]. contradiction. }
+  assert (Hrej : forall x, In x (sp_reject true req) -> dp_txs x = []).
+  { unfold sp_reject. intros x [<- | []]. reflexivity. }
+  assert (Hfin : forall rq rf early diag resp x,
+            In x (dp_txs (dp_finish cfg true rq rf early diag resp)) -> m_type x <> NR_RST ->
+            m_type resp <> NR_RST -> True) by auto.
+  assert (Hfin2 : forall rq rf early diag resp,
+            m_type resp <> NR_RST ->
+            forall x, In x (dp_txs (dp_finish cfg true rq rf early diag resp)) -> m_type x <> NR_RST).
+  { intros rq rf early diag resp Hr x Hx.
+    destruct (finish_cases cfg true rq rf early diag resp) as [H | [[H _] | [o H]]];
+      cbn zeta in H; rewrite H in Hx; cbn in Hx.
+    - contradiction.
+    - destruct Hx as [<- | []]. cbn. unfold NR_ACK, NR_RST. discriminate.
+    - destruct Hx as [<- | []]. cbn [m_type].
+      destruct (early && (m_type resp =? NR_ACK)); [unfold NR_CON, NR_RST; discriminate|exact Hr]. }
+  assert (Hrt : forall r, dp_resp_type r <> NR_RST).
+  { intros r. unfold dp_resp_type. destruct (m_type r =? NR_CON); unfold NR_ACK, NR_NON, NR_RST; discriminate. }
+  assert (Hfin3 : forall rq rf early diag r c mid tok o p x,
+            In x (dp_txs (dp_finish cfg true rq rf early diag (mkMsg (dp_resp_type r) c mid tok o p))) ->
+            m_type x <> NR_RST).
+  { intros rq rf early diag r c mid tok o p x Hx. eapply Hfin2; [|exact Hx]. cbn [m_type]. apply Hrt. }
+  assert (Hfail : forall rf c x, In x (dp_txs (dp_fail cfg true req rf c)) -> m_type x <> NR_RST).
+  { intros rf c. unfold dp_fail. apply Hfin2. unfold dp_error. cbn [m_type]. apply Hrt. }
+  destruct (dp_bad_class (m_code req)); [rewrite (Hrej _ Ha) in Hin; contradiction|].
+  destruct (dp_is_response (m_code req)).
+  { apply in_app_or in Ha as [Ha | Ha]; [rewrite (Hrej _ Ha) in Hin; contradiction|].
+    destruct (m_type req =? NR_CON); [|contradiction]. destruct Ha as [<- | []].
+    destruct Hin as [<- | []]. cbn in Hrst. unfold NR_ACK, NR_RST in Hrst. discriminate. }
+  destruct (dp_is_request (m_code req)); cbn [negb] in Ha;
+    [|rewrite (Hrej _ Ha) in Hin; contradiction].
+  apply in_app_or in Ha; destruct Ha as [Ha | Ha];
+    [|apply in_app_or in Ha; destruct Ha as [Ha | Ha];
+      [|apply in_app_or in Ha; destruct Ha as [Ha | Ha];
+        [|apply in_app_or in Ha; destruct Ha as [Ha | Ha];
+          [|apply in_app_or in Ha; destruct Ha as [Ha | Ha]]]]].
+  - destruct (sp_oscore_drop cfg req); [|contradiction]. destruct Ha as [<- | []]. contradiction.
+  - destruct (sp_long_token req); [|contradiction]. rewrite (Hrej _ Ha) in Hin. contradiction.
+  - destruct (true && (m_type req =? NR_CON)); [|contradiction]. destruct Ha as [<- | []]. contradiction.
+  - destruct ((m_type req =? NR_NON) && sp_bad_options cfg req); [|contradiction].
+    rewrite (Hrej _ Ha) in Hin. contradiction.
+  - apply in_flat_map in Ha as [e [_ Ha]].
+    destruct (sp_applies cfg true req e); [|contradiction].
+    destruct e; cbn [sp_emit] in Ha;
+      try (destruct Ha as [<- | []]; exact (Hfail _ _ _ Hin Hrst)).
+    apply in_app_or in Ha as [Ha | Ha].
+    + destruct (m_type req =? NR_CON); [|contradiction]. destruct Ha as [<- | []].
+      destruct Hin as [<- | []]. unfold dp_error in Hrst. cbn [m_type] in Hrst. exact (Hrt _ Hrst).
+    + apply in_app_or in Ha as [Ha | Ha].
+      * destruct Ha as [<- | []]. exact (Hfail _ _ _ Hin Hrst).
+      * destruct (c_prx cfg) as [[[? ?] ?]|]; [|contradiction].
+        destruct Ha as [<- | []]. exact (Hfail _ _ _ Hin Hrst).
+  - destruct (sp_blocked cfg true req); [contradiction|]. destruct Ha as [<- | []].
+    (* the handler's output: only dp_finish and the Empty ACK emit *)
+    unfold sp_handler_out, dp_invoke in Hin.
+    assert (Htail : forall i (early : bool) rf c o p,
+      In m (dp_txs ((if early then [dp_eack (sp_req' cfg req)] else []) ++ EvH i ::
+              (if dp_bad_class c then [] else if c =? 168 then [EvSkip]
+               else dp_finish cfg true (sp_req' cfg req) rf early false
+                      (mkMsg (dp_resp_type (sp_req' cfg req)) c (m_mid (sp_req' cfg req))
+                             (m_token (sp_req' cfg req)) o p)))) -> False).
+    { intros i early rf c o p Hm. rewrite txs_app in Hm. apply in_app_or in Hm as [Hm | Hm].
+      - destruct early; [|contradiction]. destruct Hm as [<- | []].
+        cbn in Hrst. unfold NR_ACK, NR_RST in Hrst. discriminate.
+      - change (dp_txs (EvH i :: ?t)) with (dp_txs t) in Hm.
+        cbn [dp_txs flat_map app] in Hm.
+        destruct (dp_bad_class c); [contradiction|]. destruct (c =? 168); [contradiction|].
+        revert Hm. fold (dp_txs (dp_finish cfg true (sp_req' cfg req) rf early false
+                        (mkMsg (dp_resp_type (sp_req' cfg req)) c (m_mid (sp_req' cfg req)) (m_token (sp_req' cfg req)) o p))).
+        intros Hm. exact (Hfin3 _ _ _ _ _ _ _ _ _ _ _ Hm Hrst). }
+    destruct (sp_target cfg req).
+    + exact (Htail _ false _ _ _ _ Hin).
+    + exact (Htail _ (m_type (sp_req' cfg req) =? NR_CON) _ _ _ _ Hin).
+    + exact (Htail _ false _ _ _ _ Hin).
+    + exact (Hfin3 _ _ _ _ _ _ _ _ _ _ _ Hin Hrst).
+    + exact (Htail _ false _ _ _ _ Hin).
+Qed.
